@@ -133,6 +133,10 @@ BaseWorld == <<
   C("lanelet_center", "none", <<SC, NET, L3>>, << <<0, 3>>, <<4, 3>>, <<8, 4>> >>, <<>>),
   C("lanelet_right",  "none", <<SC, NET, L3>>, << <<0, 2>>, <<4, 2>>, <<8, 3>> >>, <<>>),
   C("lanelet_polygon", "none", <<SC, NET, L3>>, << <<0, 2>>, <<0, 4>>, <<4, 4>>, <<8, 5>>, <<8, 3>>, <<4, 2>> >>, <<>>),
+  (* areas of the network: area 8 has two borders (polylines), area 9 has none; an Area / AreaBorder has no            *)
+  (* translate_rotate of its own, the borders are stored points of the lanelet network                                   *)
+  C("area_border",    "none", <<SC, NET, <<"area_border", "81">> >>, << <<0, 0>>, <<4, 0>>, <<8, 1>> >>, <<>>),
+  C("area_border",    "none", <<SC, NET, <<"area_border", "82">> >>, << <<0, -2>>, <<4, -2>>, <<8, -1>> >>, <<>>),
   C("sign",           "none", <<SC, NET, <<"sign", "11">> >>, << <<4, -1>> >>, <<>>),
   C("light",          "none", <<SC, NET, <<"light", "12">> >>, << <<8, 4>> >>, <<>>),
   C("static_init",    "static",  <<SC, OS21, ST>>, << <<2, 1>> >>, << <<3, 4, 5>> >>),
@@ -269,8 +273,9 @@ ASSUME \A i \in DOMAIN World : Range(World[i].oris) \subseteq OriTok
 IsPrefix(a, b) == Len(a) <= Len(b) /\ \A i \in DOMAIN a : a[i] = b[i]
 InScope(tgt, c) == IsPrefix(tgt, c.path)
 Level(tgt) == tgt[Len(tgt)][1]
+NonTargets == {"occupancy_query", "area_border"}     \* a query result / a border polyline is not an object one can move
 Targets(W) == {p \in UNION {{SubSeq(c.path, 1, n) : n \in 1..Len(c.path)} : c \in Range(W)} :
-                   p[Len(p)][1] # "occupancy_query"}          \* a query result is not an object one can move
+                   p[Len(p)][1] \notin NonTargets}
 Children(W, tgt) == {p \in Targets(W) : Len(p) = Len(tgt) + 1 /\ IsPrefix(tgt, p)}
 (* image of a component: points as numerators over den, directions as numerators over o[3] * den             *)
 VelImage(r, v) == Image(r, <<0, 0>>, v)                    \* a velocity is a vector: rotated, never translated
